@@ -29,3 +29,5 @@ CHECK = GraphCheck(
     nontrivial=nontrivial,
     deciding=["oracle.C01.name_walk", "oracle.C01.region_walk", "M-stage.restructure_loop"],
 )
+
+CHECK.with_gtests = True
